@@ -351,8 +351,14 @@ def setitem_value(M, cont, idx, val, st, node, aug=None):
         key = idx
         old = cont
         nv = ex.snapshot(val, st)
-        return SDict(SSet(lambda x: OR(old.dom.member(x), EQ(x, key)), old.dom.elem),
-                     lambda x: nv if EQ(x, key) is True else (old.val(x) if EQ(x, key) is False else _dict_ite(EQ(x, key), nv, old.val(x))), old.vtype)
+        nd_ = SDict(SSet(lambda x: OR(old.dom.member(x), EQ(x, key)), old.dom.elem),
+                    lambda x: nv if EQ(x, key) is True else (old.val(x) if EQ(x, key) is False else _dict_ite(EQ(x, key), nv, old.val(x))), old.vtype)
+        if getattr(old, 'keys_range', None) is not None:
+            # assigning to an existing key keeps the key set (obligation: the key is present)
+            ex.oblige(st, 'key', old.dom.member(key), node, text='item assignment to an existing key')
+            nd_.keys_range = old.keys_range
+            nd_.dom = old.dom
+        return nd_
     if isinstance(cont, SList):
         if aug:
             raise Unsupported('augmented list item')
@@ -482,9 +488,16 @@ def setitem_value(M, cont, idx, val, st, node, aug=None):
     if isinstance(pv, SArr):
         vd = [p for p in poss if p is not None]
         if pv.ndim == len(vd):
+            bc = []
             for want, got in zip(vdims, pv.shape):
-                same = EQ(want, got); ex.oblige(st, 'shape', same, node); st.assume(same)
-            vget = lambda ixs: pv.get(*[p(i) for p, i in zip(poss, ixs) if p is not None])
+                one = EQ(got, 1)
+                same = OR(EQ(want, got), one)          # numpy broadcasts a length-1 axis of the value
+                ex.oblige(st, 'shape', same, node); st.assume(same)
+                bc.append(one)
+            def vget(ixs, bc=bc):
+                ps = [p(i) for p, i in zip(poss, ixs) if p is not None]
+                ps = [0 if one is True else (q if one is False else z3.If(Z(one), z3.IntVal(0), Z(q))) for q, one in zip(ps, bc)]
+                return pv.get(*ps)
         elif pv.ndim == 0:
             vget = lambda ixs: pv.get()
         elif pv.ndim == 1 and len(vd) == 2:
@@ -607,6 +620,10 @@ def materialise(M, lazy, st):
         st.assume(forall([k], IMPLIES(AND(in_range(k, 0, src.n), pred(src.get(k))), AND(in_range(hi(k), 0, L.n), h(hi(k)) == k))))
         ex.use('A-NUMPY:filter keeps exactly the elements satisfying the predicate, in order')
         return st.alloc(L)
+    if tg == 'dictvalues':
+        _, D, lo, hi = lazy
+        n = M.nonneg_diff(hi, lo)
+        return st.alloc(SList(n, lambda k: D.val((Z(k) + Z(lo)) if (is_z3(lo) or lo != 0) else k), D.vtype))
     if tg == 'items':
         d = lazy[1]
         keys = st.deref(M.list_of_set(d.dom, st))
